@@ -12,7 +12,14 @@ Open Scope list_scope.
 (* what the previous committed build left behind, as recorded *)
 Record prev := { pv_name : string; pv_outputs : list path; pv_dirs : list path }.
 
-Definition plen (p : path) : nat := List.length p.
+(* textual form of a path (components joined with "/") *)
+Definition path_text (p : path) : string :=
+  fold_left (fun acc n => (acc ++ "/" ++ n)%string) (rev p) ""%string.
+
+(* "deepest first": any order in which a directory comes after everything below
+   it would do; the linearisation used is the one of the code (longest text
+   first, ties in list order) *)
+Definition plen (p : path) : nat := String.length (path_text p).
 Definition deepest_first (l : list path) : list path := sort_by (fun a b => Nat.leb (plen b) (plen a)) l.
 
 Definition try_remove (fs : fsT) (p : path) : fsT :=
@@ -29,9 +36,6 @@ Definition ref_clean (fs : fsT) (cachefile : path) (pv : prev) : fsT :=
 
 (* ---- answers on a plain tree ---- *)
 Definition names_val (l : list name) : pyval := PList (map PStr l).
-
-Definition path_text (p : path) : string :=
-  fold_left (fun acc n => (acc ++ "/" ++ n)%string) (rev p) ""%string.
 
 Fixpoint ref_walk (fuel : nat) (fs : fsT) (d : path) (top_down : bool) : list pyval :=
   match fuel with
